@@ -44,10 +44,23 @@ pub fn run(args: &Args) -> i32 {
         let taps = if rng.chance(1, 2) { rng.usize(3) } else { 0 };
         let chunking = rng.chance(1, 4);
         let mut rig: Rig = Rig::new(rng, chunking);
+        // application-level validation (`validate_messages`): the harness plays the application and answers
+        // Accept at PRNG-chosen later points, so that further copies can arrive while a message is still pending
+        let any_validating = rng.chance(1, 2);
+        let mut validating: Vec<bool> = (0..n).map(|_| any_validating && rng.chance(1, 2)).collect();
+        let shared_tap_node = if taps == 2 && rng.chance(2, 3) { Some(rng.usize(n)) } else { None };
+        if let Some(x) = shared_tap_node
+            && rng.chance(3, 4)
+        {
+            validating[x] = true;
+        }
         for i in 0..n {
             let cfg = {
                 let mut b = base_config();
                 b.mesh_n(6).mesh_n_low(4).mesh_n_high(12).mesh_outbound_min(2).flood_publish(rng.bool());
+                if validating[i] {
+                    b.validate_messages();
+                }
                 b.build().expect("config")
             };
             rig.add_gs(rng.next_u64() ^ i as u64, |k| gs::Behaviour::new_with_subscription_filter(gs::MessageAuthenticity::Signed(k.clone()), cfg, gs::AllowAllSubscriptionFilter {}).expect("behaviour"));
@@ -55,7 +68,7 @@ pub fn run(args: &Args) -> i32 {
         let mut tap_links: Vec<(usize, Vec<usize>)> = vec![];
         for _ in 0..taps {
             let t = rig.add_raw(rng.next_u64());
-            let mut l = vec![rng.usize(n)];
+            let mut l = vec![shared_tap_node.unwrap_or_else(|| rng.usize(n))];
             if rng.bool() {
                 let o = rng.usize(n);
                 if !l.contains(&o) {
@@ -91,10 +104,15 @@ pub fn run(args: &Args) -> i32 {
         // received[node][data] = count
         let mut received: Vec<HashMap<Vec<u8>, u32>> = vec![HashMap::new(); n + taps];
         let mut dup: Vec<(usize, Vec<u8>)> = vec![];
+        let mut pending_val: Vec<(usize, gs::MessageId, libp2p_identity::PeerId)> = vec![];
+        let mut validations = 0u64;
         macro_rules! sink {
             () => {
                 &mut |_: &mut Net<B>, i: usize, ev: SwarmEvent<Ev>| {
-                    if let SwarmEvent::Behaviour(Either::Left(gs::Event::Message { message, .. })) = ev {
+                    if let SwarmEvent::Behaviour(Either::Left(gs::Event::Message { message, message_id, propagation_source })) = ev {
+                        if i < n && validating[i] {
+                            pending_val.push((i, message_id, propagation_source));
+                        }
                         let c = received[i].entry(message.data.clone()).or_insert(0);
                         *c += 1;
                         if *c > 1 {
@@ -103,6 +121,24 @@ pub fn run(args: &Args) -> i32 {
                     }
                 }
             };
+        }
+        // answer pending validations: all of them, or a PRNG subset in PRNG order
+        macro_rules! release {
+            ($all:expr) => {{
+                let mut keep = vec![];
+                let mut batch = std::mem::take(&mut pending_val);
+                rng.shuffle(&mut batch);
+                for (i, id, src) in batch {
+                    if $all || rng.bool() {
+                        rig.gs(i).report_message_validation_result(&id, &src, gs::MessageAcceptance::Accept);
+                        rig.net.touch(i);
+                        validations += 1;
+                    } else {
+                        keep.push((i, id, src));
+                    }
+                }
+                pending_val = keep;
+            }};
         }
         rig.run(50_000, sink!());
         for (a, b) in &edges {
@@ -194,6 +230,24 @@ pub fn run(args: &Args) -> i32 {
                 let px = rig.peer(x);
                 rig.raw_send(t, &px, &Rpc { publish: vec![msg], ..Default::default() });
                 tap_sent.entry((t, x)).or_default().insert(data.clone());
+                // a second tap linked to the same (validating) node sends its copy of the same message while the
+                // first one is still waiting for validation: once both copies have arrived (quiescence, nothing is
+                // answered meanwhile) the node has received the message from both taps and must send it to neither
+                if let Some((t2, _)) = tap_links.iter().find(|(t2, l2)| *t2 != t && l2.contains(&x))
+                    && validating[x]
+                    && rng.chance(2, 3)
+                {
+                    let t2 = *t2;
+                    let msg = PubMsg::signed(&key, TOPIC, &data, 1000 + k as u64);
+                    rig.raw_send(t2, &px, &Rpc { publish: vec![msg], ..Default::default() });
+                    if rig.run(800_000, sink!()) {
+                        // copies that crossed before now are not judged
+                        let _ = rig.raw_recv(t2, &px);
+                        tap_sent.entry((t2, x)).or_default().insert(data.clone());
+                        sig.push_u64(7777);
+                        check.count("duplicates_during_validation", 1);
+                    }
+                }
                 publisher.insert(data, t);
                 sig.push_u64(100 + x as u64);
             } else {
@@ -221,14 +275,30 @@ pub fn run(args: &Args) -> i32 {
                     rig.run(rng.range(1, 150), sink!());
                 }
             }
-        }
-        // final: quiesce, heartbeats (gossip repair), quiesce
-        let mut ok = rig.run(800_000, sink!());
-        for _ in 0..2 {
-            for i in 0..n {
-                rig.heartbeat(i);
+            if rng.chance(1, 3) {
+                release!(false);
             }
-            ok &= rig.run(800_000, sink!());
+        }
+        // final: quiesce (answering every pending validation), heartbeats (gossip repair), quiesce
+        let mut ok = rig.run(800_000, sink!());
+        for round in 0..3 {
+            if round > 0 {
+                for i in 0..n {
+                    rig.heartbeat(i);
+                }
+                ok &= rig.run(800_000, sink!());
+            }
+            for _ in 0..4 * n {
+                if pending_val.is_empty() {
+                    break;
+                }
+                release!(true);
+                ok &= rig.run(800_000, sink!());
+            }
+        }
+        if !pending_val.is_empty() {
+            check.inconclusive("validations still pending at the end");
+            return;
         }
         if !ok {
             check.inconclusive("not quiescent at the end");
@@ -250,7 +320,7 @@ pub fn run(args: &Args) -> i32 {
                 }
             }
         }
-        let wit = json!({"case": case_idx, "nodes": n, "taps": tap_links.iter().map(|(t, l)| format!("{t}->{l:?}")).collect::<Vec<_>>(), "edges": edges.iter().map(|(a, b)| format!("{a}-{b}")).collect::<Vec<_>>(),
+        let wit = json!({"case": case_idx, "nodes": n, "taps": tap_links.iter().map(|(t, l)| format!("{t}->{l:?}")).collect::<Vec<_>>(), "validating": validating, "edges": edges.iter().map(|(a, b)| format!("{a}-{b}")).collect::<Vec<_>>(),
             "publishers": publisher.iter().map(|(d, p)| format!("{}@{p}", String::from_utf8_lossy(d))).collect::<Vec<_>>(),
             "received": (0..n).map(|i| { let mut v: Vec<String> = received[i].iter().map(|(d, c)| format!("{}x{c}", String::from_utf8_lossy(d))).collect(); v.sort(); v }).collect::<Vec<_>>()});
         for (i, d) in &dup {
@@ -274,6 +344,8 @@ pub fn run(args: &Args) -> i32 {
         check.count("messages_published", publisher.len() as u64);
         check.count("application_deliveries", received.iter().map(|r| r.values().map(|c| *c as u64).sum::<u64>()).sum());
         check.count("cases_with_taps", (!tap_links.is_empty()) as u64);
+        check.count("cases_with_validating_nodes", validating.iter().any(|v| *v) as u64);
+        check.count("application_validations_answered", validations);
         check.distinct("distinct_topologies", Sig::new().str(&format!("{edges:?}")).0);
         if check.want_sample() && n >= 5 && !complete {
             check.sample(wit);
